@@ -20,4 +20,19 @@ CHECKS = {
         ],
         fuzz=[dict(target="FuzzLookupNeverPanics", secs=(0, 60))],
     ),
+    "C04": dict(
+        pkg="./c04", level="exploration",
+        runs=[
+            dict(name="seq", run="^TestPropSequential$", checks=(3000, 30000), shards=(4, 16)),
+            dict(name="conc", run="^TestPropConcurrent$", checks=(150, 1500), shards=(4, 16)),
+            dict(name="regress", run="^TestRegress", shards=(1, 1)),
+        ],
+    ),
+    "C05": dict(
+        pkg="./c05", level="exploration",
+        runs=[
+            dict(name="dispatch", run="^TestPropDispatch$", checks=(4000, 40000), shards=(4, 16)),
+            dict(name="doc", run="^TestDocCodes$", shards=(1, 1)),
+        ],
+    ),
 }
